@@ -37,6 +37,7 @@ REQUIRED = {"hist.observable_result": {"quick": 50000, "thorough": 2000000}, "hi
 REQUIRED_SEEN = {"cleanup_registered_from": ["before_all", "before_feature", "before_rule", "before_scenario", "before_step", "step", "after_step",
                                              "after_scenario", "before_tag"],
                  "cleanup_layer": ["current", "feature", "scenario", "testrun"],
+                 "generator_fixture_given_as": ["fx_partial", "fx_method"], "scoped_layer_name": ["has_upper_case", "lower_case"],
                  "scoped_block_left_by": ["normal", "RuntimeError", "KeyboardInterrupt", "SystemExit"]}
 EXHAUSTIVE = True
 EXHAUSTIVE_SCOPE = "all operation histories up to the length bound over the 16-operation alphabet"
@@ -274,6 +275,34 @@ def run_history(lab, mon, ops, rng=None, label="exhaustive"):
             model.add_cleanup(cid_i)
             got = lab.use_fixture(lab.fixture(outer), ctx)
             mon.check("hist.observable_result", got == "outer+inner", lambda: W(op="nested fixture", got=got))
+        elif op in ("fx_partial", "fx_method", "fx_callable_object"):
+            # a generator fixture handed over in another callable form: functools.partial(gen, ...), a bound method, an object with
+            # a generator __call__ (fixture registries built with partial are the documented way to parametrise fixtures)
+            import functools
+            cid, teardown = make_cleanup(False)
+            setup_ran = []
+
+            def gen_fixture(context, flavour, teardown=teardown, setup_ran=setup_ran):
+                setup_ran.append(flavour)
+                yield "value:" + flavour
+                teardown()
+
+            if op == "fx_partial":
+                fx_obj, want_value = functools.partial(gen_fixture, flavour="partial"), "value:partial"
+            else:
+                # (a plain function returning a generator is NOT a generator function: only partial is exercised as 'other form';
+                #  bound generator methods are generator functions)
+                class Holder2(object):
+                    def method(self, context, _teardown=teardown, _setup_ran=setup_ran):
+                        _setup_ran.append("method")
+                        yield "value:method"
+                        _teardown()
+                fx_obj, want_value = Holder2().method, "value:method"
+            got = lab.use_fixture(fx_obj, ctx)
+            model.add_cleanup(cid)
+            mon.check("hist.observable_result", got == want_value and len(setup_ran) == 1,
+                      lambda: W(op="use_fixture(%s)" % op, got=repr(got), want=want_value, setup_part_ran=list(setup_ran)))
+            mon.seen("generator_fixture_given_as", op)
         elif op == "fx_plain":
             def fxp(context):
                 return "plain"
@@ -332,9 +361,14 @@ def run_history(lab, mon, ops, rng=None, label="exhaustive"):
             val[0] += 1
             raised = None
             try:
-                with scoped_context_layer(ctx, rng.choice([None, "scenario", "tmp"]) if rng is not None else None):
+                lname = rng.choice([None, "scenario", "tmp", "Import", "DB", "subScenario"]) if rng is not None else None
+                with scoped_context_layer(ctx, lname):
                     ctx.scoped_value = val[0]
-                    ctx.add_cleanup(fn)
+                    if lname is not None and lname != "scenario":
+                        ctx.add_cleanup(fn, layer=lname)        # by the name the scope was opened with, as written
+                        mon.seen("scoped_layer_name", "has_upper_case" if lname.lower() != lname else "lower_case")
+                    else:
+                        ctx.add_cleanup(fn)
                     if leave is not None:
                         raise leave("leaving the block")
             except BaseException as ex:
@@ -727,7 +761,7 @@ def run(spec, mon):
                     sink.seek(0)
                     sink.truncate()
         mon.count("exhaustive_histories_enumerated", idx if shard == 0 else 0)
-        ALL = OPS + ["set_none_a", "set_none_a", "create", "cl_nesting", "cl_nesting", "cl_same", "cl_same", "cl_same_layer_f", "cl_same_layer_s", "fx_nested", "push_r", "cl_layer_s", "cl_layer_t", "cl_layer_x", "fx_plain", "fx_composite", "user_mode_raise", "create", "scoped_ok", "scoped_exc", "scoped_ki", "scoped_exit",
+        ALL = OPS + ["set_none_a", "set_none_a", "create", "cl_nesting", "cl_nesting", "cl_same", "cl_same", "cl_same_layer_f", "cl_same_layer_s", "fx_nested", "push_r", "cl_layer_s", "cl_layer_t", "cl_layer_x", "fx_plain", "fx_composite", "user_mode_raise", "create", "scoped_ok", "scoped_exc", "scoped_ki", "scoped_exit", "fx_partial", "fx_partial", "fx_method",
                      ("set", "c"), ("get", "c"), ("del", "b"), ("in", "b"), ("root", "b"), ("get", "fx_value"), ("assign", "b")]
         for i in range(150 if tier == "quick" else 8000):
             ops = [rng.choice(ALL) for _ in range(rng.randint(5, 40))]
